@@ -43,6 +43,7 @@ type Query {
   labelAlso: Tag
   vari(xs: [String]): String
   triple: String
+  sized(s: Size, l: [Size]): String
 }
 type Tag {
   title: String
@@ -232,6 +233,15 @@ func IsLeafField(typ, field string) bool {
 		}
 	}
 	return false
+}
+
+// noteContext records the Context a resolver found on its *ggql.Field (what
+// the caller of ggql put there for this call) with the invocation just logged.
+func (tr *Tracker) noteContext(ctx interface{}) {
+	if tr == nil || ctx == nil || len(tr.Calls) == 0 {
+		return
+	}
+	tr.Calls[len(tr.Calls)-1].Args += " ctx=" + CanonLite(ctx)
 }
 
 func (tr *Tracker) enter(typ, field string, args map[string]interface{}, path string) (kind string, err error) {
@@ -863,6 +873,8 @@ func zooField(q *Query, obj interface{}, name string, args map[string]interface{
 			return span(args["r"]), nil
 		case "blob":
 			return CanonLite(args["j"]), nil
+		case "sized":
+			return "sized:" + CanonLite(map[string]interface{}(args)), nil
 		case "vari":
 			return nil, errors.New("zoo: vari cannot be served")
 		case "triple":
@@ -1148,6 +1160,7 @@ func (n *INode) Resolve(field *ggql.Field, args map[string]interface{}) (interfa
 		ps = CanonLite(path)
 	}
 	kind, err := tr.enter(typeNameOf(n.v), field.Name, args, ps)
+	tr.noteContext(field.Context)
 	if err != nil {
 		if kind == FaultTypedNil {
 			// "var rec map[string]interface{}; return rec, err"
@@ -1234,6 +1247,7 @@ func (a *ZooAny) Resolve(obj interface{}, field *ggql.Field, args map[string]int
 		}
 	}
 	kind, err := tr.enter(typeNameOf(obj), field.Name, args, ps)
+	tr.noteContext(field.Context)
 	if err != nil {
 		if kind == FaultTypedNil {
 			if tr.N%2 == 0 {
